@@ -625,6 +625,20 @@ func (c *Ctx) funcDecl(pkg, name string) (*ast.FuncDecl, *packages.Package) {
 	return nil, nil
 }
 
+// srcText returns the source text between two positions of one file.
+func (c *Ctx) srcText(pos, end token.Pos) string {
+	ps, pe := c.Fset.Position(pos), c.Fset.Position(end)
+	b, ok := c.fileSrc[ps.Filename]
+	if !ok {
+		b, _ = os.ReadFile(ps.Filename)
+		c.fileSrc[ps.Filename] = b
+	}
+	if ps.Offset >= 0 && pe.Offset <= len(b) && ps.Offset <= pe.Offset {
+		return string(b[ps.Offset:pe.Offset])
+	}
+	return ""
+}
+
 func (c *Ctx) srcLine(pos token.Pos) string {
 	ps := c.Fset.Position(pos)
 	b, ok := c.fileSrc[ps.Filename]
